@@ -1,6 +1,6 @@
 \* repaired model with every fault index of a one-append history, transient and persistent (quick tier of C16)
 CONSTANTS NDev = 1 NPaths = 3 Kinds1 = {"tiff", "sbs"} MaxCycles = 2 MaxAppends = 1 MaxPacket = 2 Real = FALSE NKinds = 2
-  NScripts = 2 MaxFaultAt = 15 MaxDepth = 4 FIX_TIFF = 1 FIX_SBS = 1 FIX_META = 1 MaxFd = 5 Ghost = TRUE Export = FALSE
+  NScripts = 2 MaxFaultAt = 15 MaxDepth = 4 FIX_TIFF = 1 FIX_SBS = 1 FIX_META = 1 SetRunning = TRUE FIX_SET = 1 MaxFd = 5 Ghost = TRUE Export = FALSE
 SPECIFICATION Spec
 VIEW View
 INVARIANTS NoErr NoCrash TypeOK OwnsItsFile Cursors InnerFollowsOuter
